@@ -91,6 +91,7 @@ fn api_sequence(stats: &mut Vec<&'static str>, rng: &mut Rng, board: &Board, d: 
             }
             4 | 5 | 6 => {
                 let mut g = b.legals();
+                let legal_here: Vec<Mv> = b.legals().map(mv_back).collect();
                 for _ in 0..rng.range(1, 14) {
                     match rng.below(9) {
                         0 | 1 => {
@@ -103,10 +104,20 @@ fn api_sequence(stats: &mut Vec<&'static str>, rng: &mut Rng, board: &Board, d: 
                         2 => d.u(g.len() as u64),
                         3 => d.u(g.is_empty() as u64),
                         4 => d.u(g.size_hint().0 as u64),
-                        5 => g.set_mask(BitBoard::from_u64(rng.next_u64() | rng.next_u64())),
+                        5 => {
+                            let m = match rng.below(4) {
+                                0 => rng.next_u64() | rng.next_u64(),
+                                1 => rng.next_u64() & rng.next_u64(),
+                                2 => b[!b.turn()].to_u64(), // captures only, as the search does
+                                _ => legal_here.first().map(|m| 1u64 << m.to).unwrap_or(0) | (1u64 << rng.below(64)),
+                            };
+                            g.set_mask(BitBoard::from_u64(m))
+                        }
                         6 => g.remove(BitBoard::from_u64(rng.next_u64() & rng.next_u64())),
                         7 => {
-                            let t = random_triple(rng);
+                            // mostly a move that is really in the list (withdrawing it under a narrow mask
+                            // is what leaves an entry empty under the mask), sometimes an arbitrary triple
+                            let t = if !legal_here.is_empty() && rng.chance(3, 4) { *rng.pick(&legal_here) } else { random_triple(rng) };
                             d.u(g.remove_move(mv(t)) as u64);
                         }
                         _ => {
